@@ -52,12 +52,12 @@ def prepare():
 
 def confirm(src):
     res = {}
-    sh("git checkout -- . && rm -f tests/seed_demo.rs", cwd=WT)
+    sh("git reset -q --hard && git stash clear; rm -f tests/seed_demo.rs", cwd=WT)
     rc, out = sh("git apply %s/patch.diff" % src, cwd=WT)
     if rc != 0:
         rc, out = sh("git apply -3 %s/patch.diff" % src, cwd=WT)
         if rc != 0:
-            sh("git checkout -- .", cwd=WT)
+            sh("git reset -q --hard", cwd=WT)
             return {"applies": False, "log": out[-500:]}
     res["applies"] = True
     rc, out = sh("cargo test --workspace --no-fail-fast --offline 2>&1 | grep -E '^test result|^error' ", cwd=WT)
@@ -98,7 +98,7 @@ def run(src, name, props):
         meta.update({"what_i_ran": "confirmed in a scratch worktree of /repo HEAD: cargo test --workspace --no-fail-fast --offline passes with the change; tests/seed_demo.rs fails with it and passes without it. Then bin/check <id> --tier quick for %s, from a frozen snapshot of /verif whose harness builds that worktree with the change applied (lib/seedtest2.py); worktree reset afterwards." % props,
                      "result": result})
         json.dump(meta, open(os.path.join(dst, "meta.json"), "w"), indent=1)
-    sh("git checkout -- . && rm -f tests/seed_demo.rs", cwd=WT)
+    sh("git reset -q --hard; rm -f tests/seed_demo.rs", cwd=WT)
     print(json.dumps({"name": name, **result}, indent=1))
 
 
